@@ -153,6 +153,18 @@ MUTATIONS: dict[str, tuple[str, str, str, str]] = {
         "        finally:\n            self._size = _size\n",
         "draw-animated:size-changed (the user sets a size while the animation runs)",
     ),
+    "url-tempfile-shared-name": (  # seeded/C11-y2
+        COMMON,
+        """        fd, filepath = mkstemp("-" + os.path.basename(url), dir=_TEMP_DIR)
+        os.write(fd, response.content)
+        os.close(fd)
+""",
+        """        filepath = os.path.join(_TEMP_DIR, "url-" + os.path.basename(url))
+        with open(filepath, "wb") as temp_file:
+            temp_file.write(response.content)
+""",
+        "peeropen:temp-missing (two URL images share one temporary copy)",
+    ),
     "eof-off-by-one": (
         COMMON,
         "            n = n + 1 if sent is None else sent - 1\n\n        if cached:\n            n_frames = len(cache)",
